@@ -307,7 +307,15 @@ static void pick_next(void)
 			if (!nn) {
 				if (++forced_spin > 3000) { end_run(VS_LIVELOCK); return; }
 			}
-			if (policy == 3) {
+			if (!nn && policy == 3) {
+				/* only spinning threads are runnable: a spin flag may be stale (set by the last
+				 * yield / repeated load of a loop that has since become able to exit), so take
+				 * turns (round-robin by tid) instead of re-running the same thread for ever */
+				n = NULL;
+				for (int i = 0; i < cnt; i++)
+					if (set[i]->tid > last_tid && (!n || set[i]->tid < n->tid)) n = set[i];
+				if (!n) { n = set[0]; for (int i = 1; i < cnt; i++) if (set[i]->tid < n->tid) n = set[i]; }
+			} else if (policy == 3) {
 				/* non-preemptive continuation: keep running the last thread while it can */
 				n = NULL;
 				for (int i = 0; i < cnt; i++) if (set[i]->tid == last_tid) n = set[i];
@@ -320,6 +328,8 @@ static void pick_next(void)
 					}
 				n = set[0];
 				for (int i = 1; i < cnt; i++) if (set[i]->prio > n->prio) n = set[i];
+				/* only spinning threads runnable: priorities would starve the one whose flag is stale */
+				if (!nn) n = set[rnd() % cnt];
 			} else {
 				n = set[rnd() % cnt];
 			}
